@@ -110,3 +110,11 @@ Theorem C02_kintensity_enclosed : forall BI BR dI dR kdI kdR wI wR mI mR,
   encloses (@kintensity _ IvTNum BI dI kdI wI mI) (@kintensity R RTNum BR dR kdR wR mR).
 Proof. exact kintensity_transfer. Qed.
 Print Assumptions C02_kintensity_enclosed.
+
+(* the angle quadrature (non-zero nodes): with C02_intensity_enclosed, C02_planck_enclosed and C02_eclipse_enclosed every
+   arithmetic stage of the eclipse spectrum is covered; the saturation flags between them are decided on mid-points *)
+Theorem C02_flux_enclosed : forall IsI IsR muI muR wtI wtR w,
+  Forall2 encl_list IsI IsR -> encl_list muI muR -> encl_list wtI wtR -> Forall (fun mu => mu <> 0) muR ->
+  encloses (@flux _ IvTNum IsI muI wtI w) (@flux R RTNum IsR muR wtR w).
+Proof. exact flux_transfer. Qed.
+Print Assumptions C02_flux_enclosed.
